@@ -419,6 +419,9 @@ func genConc(prop string, seed uint64, tier string) *ConcScenario {
 	if cacheFam {
 		mx = defaultCacheMix
 	}
+	if prop == "C02" && cacheFam && sc.MinCap > 0 && sc.MinLen < 32 {
+		mx.filler = 14 // tiny tables: inserts of fresh keys meet the resizes they trigger
+	}
 	switch prop {
 	case "C07":
 		mx.rng = 25
